@@ -41,55 +41,85 @@ func c01Pred(c *core.Ctx, r *core.Reporter) {
 		r.Unknown("Plan.collectInto", token.NoPos, "collectInto / planDirectives / andPredicates not found")
 		return
 	}
-	parentPred := fn.Params[len(fn.Params)-1]
-	if _, ok := parentPred.Type().Underlying().(*types.Signature); !ok {
+	if _, ok := fn.Params[len(fn.Params)-1].Type().Underlying().(*types.Signature); !ok {
 		r.Unknown("Plan.collectInto/parentPred", fn.Pos(), "last parameter of collectInto is no longer the inherited predicate")
 		return
 	}
+	// The selection cases may live in collectInto itself or in helpers extracted from it (one per selection kind, say).
+	// inherited[g] is the value that stands for the inherited predicate inside host function g: collectInto's last
+	// parameter, or the parameter of an extracted helper that receives it at the helper's call site.
+	inherited := map[*ssa.Function]ssa.Value{fn: fn.Params[len(fn.Params)-1]}
+	hosts := []*ssa.Function{fn}
+	for changed := true; changed; {
+		changed = false
+		for _, g := range c.Region(fn) {
+			if inherited[g] != nil || g.Parent() != nil {
+				continue
+			}
+			for _, h := range hosts {
+				for _, site := range core.CallsTo(h, g, false) {
+					for i, a := range site.Common().Args {
+						if a == inherited[h] && i < len(g.Params) {
+							inherited[g] = g.Params[i]
+							hosts = append(hosts, g)
+							changed = true
+						}
+					}
+				}
+			}
+		}
+	}
 	type caseInfo struct {
+		host *ssa.Function
 		call *ssa.Call
 		pred ssa.Value
 		skip ssa.Value
 		kind string
 	}
 	var cases []caseInfo
-	for _, ci := range core.CallsTo(fn, pd, false) {
-		call := ci.(*ssa.Call)
-		k := caseInfo{call: call}
-		for _, ref := range *call.Referrers() {
-			if ex, ok := ref.(*ssa.Extract); ok {
-				if ex.Index == 0 {
-					k.pred = ex
-				} else {
-					k.skip = ex
+	for _, g := range hosts {
+		for _, ci := range core.CallsTo(g, pd, false) {
+			call := ci.(*ssa.Call)
+			k := caseInfo{host: g, call: call}
+			for _, ref := range *call.Referrers() {
+				if ex, ok := ref.(*ssa.Extract); ok {
+					if ex.Index == 0 {
+						k.pred = ex
+					} else {
+						k.skip = ex
+					}
 				}
 			}
-		}
-		// which selection kind: the directives argument is a field of ast.Field / InlineFragment / FragmentSpread
-		for _, cl := range core.Classes(call.Call.Args[0]) {
-			switch cl {
-			case "field:Field.Directives":
-				k.kind = "Field"
-			case "field:InlineFragment.Directives":
-				k.kind = "InlineFragment"
-			case "field:FragmentSpread.Directives":
-				k.kind = "FragmentSpread"
+			// which selection kind: the directives argument is a field of ast.Field / InlineFragment / FragmentSpread
+			for _, cl := range core.Classes(call.Call.Args[0]) {
+				switch cl {
+				case "field:Field.Directives":
+					k.kind = "Field"
+				case "field:InlineFragment.Directives":
+					k.kind = "InlineFragment"
+				case "field:FragmentSpread.Directives":
+					k.kind = "FragmentSpread"
+				}
 			}
+			cases = append(cases, k)
 		}
-		cases = append(cases, k)
 	}
 	if len(cases) != 3 {
 		r.Bad("Plan.collectInto/cases", fn.Pos(), "expected planDirectives to be evaluated once per selection kind (3 call sites), found %d: some selection kind ignores its @skip/@include", len(cases))
 		return
 	}
-	// composed(v): v is andPredicates(parentPred, pred_k) for a case k whose call dominates `at`
+	// composed(v): v is andPredicates(inherited, pred_k) for a case k of the same host whose call dominates `at`
 	composed := func(v ssa.Value, at ssa.Instruction) (bool, string) {
 		call, ok := v.(*ssa.Call)
 		if !ok || call.Call.StaticCallee() != and || len(call.Call.Args) != 2 {
 			return false, fmt.Sprintf("value is %v, not andPredicates(parentPred, pred)", core.Classes(v))
 		}
 		a, b := call.Call.Args[0], call.Call.Args[1]
+		parentPred := inherited[at.Parent()]
 		for _, k := range cases {
+			if k.host != at.Parent() {
+				continue
+			}
 			if (a == parentPred && b == k.pred) || (b == parentPred && a == k.pred) {
 				if core.InstrDominates(k.call, at) {
 					return true, k.kind
@@ -99,19 +129,13 @@ func c01Pred(c *core.Ctx, r *core.Reporter) {
 		return false, "andPredicates is not applied to (inherited predicate, this selection's own predicate)"
 	}
 	for _, k := range cases {
-		// always-skip leaves the case: the skip flag feeds an If whose true successor is the loop head
+		// always-skip leaves the case: the skip flag feeds an If whose true successor is the loop head — or, in a helper
+		// that handles one selection, a plain return
 		okSkip := false
 		if k.skip != nil {
 			for _, ref := range *k.skip.Referrers() {
 				if iff, ok := ref.(*ssa.If); ok && iff.Cond == k.skip {
-					// true branch must not reach any retention in this case before the loop head
-					if len(core.Loops(fn)) > 0 {
-						for h := range core.Loops(fn) {
-							if iff.Block().Succs[0] == h {
-								okSkip = true
-							}
-						}
-					}
+					okSkip = leavesIteration(k.host, iff.Block().Succs[0], k.host != fn)
 				}
 			}
 		}
@@ -121,37 +145,40 @@ func c01Pred(c *core.Ctx, r *core.Reporter) {
 	}
 	// new field plans
 	n := 0
-	core.Instrs(fn, func(in ssa.Instruction) {
-		st, ok := in.(*ssa.Store)
-		if !ok {
-			return
-		}
-		f := core.FieldOf(st.Addr)
-		if f == nil || core.N(f) != "skipPredicate" {
-			return
-		}
-		n++
-		ok2, why := composed(st.Val, st)
-		if ok2 && why == "Field" {
-			r.OK("Plan.collectInto/Field/new-plan-predicate", st.Pos(), "skipPredicate = andPredicates(parentPred, pred of this field)")
-		} else {
-			r.Bad("Plan.collectInto/Field/new-plan-predicate", st.Pos(), "a new field plan's skipPredicate does not combine the inherited and the field's own predicate (%s): the field is included when an enclosing fragment or its own directive excludes it", why)
-		}
-	})
+	for _, g := range hosts {
+		core.Instrs(g, func(in ssa.Instruction) {
+			st, ok := in.(*ssa.Store)
+			if !ok {
+				return
+			}
+			f := core.FieldOf(st.Addr)
+			if f == nil || core.N(f) != "skipPredicate" {
+				return
+			}
+			n++
+			ok2, why := composed(st.Val, st)
+			if ok2 && why == "Field" {
+				r.OK("Plan.collectInto/Field/new-plan-predicate", st.Pos(), "skipPredicate = andPredicates(parentPred, pred of this field)")
+			} else {
+				r.Bad("Plan.collectInto/Field/new-plan-predicate", st.Pos(), "a new field plan's skipPredicate does not combine the inherited and the field's own predicate (%s): the field is included when an enclosing fragment or its own directive excludes it", why)
+			}
+		})
+	}
 	if n == 0 {
 		r.Bad("Plan.collectInto/Field/new-plan-predicate", fn.Pos(), "new field plans no longer receive a skipPredicate at all")
 	}
 	// recursive collections
-	rec := core.CallsTo(fn, fn, false)
 	kinds := map[string]bool{}
-	for _, ci := range rec {
-		args := ci.Common().Args
-		ok2, why := composed(args[len(args)-1], ci)
-		if ok2 {
-			kinds[why] = true
-			r.OK("Plan.collectInto/"+why+"/recursive-predicate", ci.Pos(), "fragment contents collected under andPredicates(parentPred, pred of this %s)", why)
-		} else {
-			r.Bad(fmt.Sprintf("Plan.collectInto/recursive-predicate@%d", len(kinds)), ci.Pos(), "a fragment's contents are collected under a predicate that drops a gate (%s)", why)
+	for _, g := range hosts {
+		for _, ci := range core.CallsTo(g, fn, false) {
+			args := ci.Common().Args
+			ok2, why := composed(args[len(args)-1], ci)
+			if ok2 {
+				kinds[why] = true
+				r.OK("Plan.collectInto/"+why+"/recursive-predicate", ci.Pos(), "fragment contents collected under andPredicates(parentPred, pred of this %s)", why)
+			} else {
+				r.Bad(fmt.Sprintf("Plan.collectInto/recursive-predicate@%d", len(kinds)), ci.Pos(), "a fragment's contents are collected under a predicate that drops a gate (%s)", why)
+			}
 		}
 	}
 	for _, k := range []string{"InlineFragment", "FragmentSpread"} {
@@ -161,27 +188,29 @@ func c01Pred(c *core.Ctx, r *core.Reporter) {
 	}
 	// merged occurrences: append to an existing plan's fieldASTs must record the occurrence's predicate
 	merged := 0
-	for _, w := range core.WritesIn(fn) {
-		if w.Field == nil || core.N(w.Field) != "fieldASTs" || w.Fresh {
-			continue
-		}
-		merged++
-		blk := w.In.Block()
-		accounted := false
-		for _, in := range blk.Instrs {
-			if st, ok := in.(*ssa.Store); ok {
-				if f := core.FieldOf(st.Addr); f != nil && core.N(f) != "fieldASTs" {
-					for _, k := range cases {
-						if usesValue(st.Val, k.pred, 4) && usesValue(st.Val, parentPred, 4) {
-							accounted = true
+	for _, g := range hosts {
+		for _, w := range core.WritesIn(g) {
+			if w.Field == nil || core.N(w.Field) != "fieldASTs" || w.Fresh {
+				continue
+			}
+			merged++
+			blk := w.In.Block()
+			accounted := false
+			for _, in := range blk.Instrs {
+				if st, ok := in.(*ssa.Store); ok {
+					if f := core.FieldOf(st.Addr); f != nil && core.N(f) != "fieldASTs" {
+						for _, k := range cases {
+							if k.host == g && usesValue(st.Val, k.pred, 4) && usesValue(st.Val, inherited[g], 4) {
+								accounted = true
+							}
 						}
 					}
 				}
 			}
+			r.Check(accounted, "Plan.collectInto/Field/merged-occurrence-predicate", w.In.Pos(),
+				"the merged occurrence's predicate is recorded with it",
+				"an occurrence merged into an existing field plan (same response key) is kept while its own predicate and the inherited one are discarded: the key's presence and sub-selection follow only the first occurrence's condition")
 		}
-		r.Check(accounted, "Plan.collectInto/Field/merged-occurrence-predicate", w.In.Pos(),
-			"the merged occurrence's predicate is recorded with it",
-			"an occurrence merged into an existing field plan (same response key) is kept while its own predicate and the inherited one are discarded: the key's presence and sub-selection follow only the first occurrence's condition")
 	}
 	if merged == 0 {
 		r.Unknown("Plan.collectInto/Field/merged-occurrence-predicate", fn.Pos(), "no merge of a repeated response key found (anchor moved)")
@@ -324,7 +353,7 @@ func c01Collect(c *core.Ctx, r *core.Reporter) {
 		sd := side{name: name, gates: map[string]map[string]bool{}}
 		for kind, cl := range sw.Clauses {
 			g := map[string]bool{}
-			ast.Inspect(cl, func(n ast.Node) bool {
+			c.InspectWithFresh(info, cl, func(n ast.Node) bool { // the arm and helpers extracted from it
 				switch x := n.(type) {
 				case *ast.CallExpr:
 					if f := core.CalleeObj(info, x); f != nil {
@@ -454,7 +483,7 @@ func checkArgSpecs(c *core.Ctx, r *core.Reporter, specs []argSpec) {
 			continue
 		}
 		var sites []ssa.CallInstruction
-		for _, fn := range core.WithAnon(caller) {
+		for _, fn := range c.Region(caller) { // the caller, its literals and helpers extracted from it
 			sites = append(sites, core.CallsTo(fn, callee, false)...)
 		}
 		if len(sites) == 0 {
@@ -530,4 +559,40 @@ func c01Args(c *core.Ctx, r *core.Reporter) {
 	}
 	r.Check(okGuard, "planArguments/static-only-without-variables", fn.Pos(), "plan-time coercion happens only on the branch where astHasVariables is false",
 		"arguments are pre-coerced at plan time without the astHasVariables guard: variable references are coerced with nil variables")
+}
+
+// leavesIteration: from block b control goes back to a loop header of fn (or, when retOK, to a return) through blocks
+// that do nothing but step the loop — no call, store or map update on the way (`continue` of a range loop jumps to the
+// header itself, `continue` of a three-clause loop to its post statement).
+func leavesIteration(fn *ssa.Function, b *ssa.BasicBlock, retOK bool) bool {
+	headers := core.Loops(fn)
+	seen := map[*ssa.BasicBlock]bool{}
+	var walk func(x *ssa.BasicBlock) bool
+	walk = func(x *ssa.BasicBlock) bool {
+		if _, isHeader := headers[x]; isHeader {
+			return true
+		}
+		if seen[x] {
+			return true
+		}
+		seen[x] = true
+		for _, in := range x.Instrs {
+			switch in.(type) {
+			case *ssa.Call, *ssa.Store, *ssa.MapUpdate, *ssa.Go, *ssa.Defer, *ssa.Send, *ssa.Panic:
+				return false
+			case *ssa.Return:
+				return retOK
+			}
+		}
+		if len(x.Succs) == 0 {
+			return false
+		}
+		for _, s := range x.Succs {
+			if !walk(s) {
+				return false
+			}
+		}
+		return true
+	}
+	return walk(b)
 }
